@@ -152,6 +152,7 @@ type world struct {
 	conflictKeys map[string]bool // keys where someone else (or a link flush) removed/overwrote a route Felix held
 	rescanLost   map[string]bool // links whose last per-interface route listing failed (cleared by the next successful listing)
 	felixDeleted map[string]delRec // routes Felix itself deleted and has not re-programmed or re-listed since
+	flushed      map[string]delRec // Felix-held routes the kernel flushed with their link, not re-programmed / fully re-listed since
 	seenBy       map[int]time.Time
 	downSince    map[string]bool // iface got a "down" notification since the last Apply
 
@@ -563,6 +564,7 @@ func (n *nlWrap) RouteListFilteredIter(family int, filter *netlink.Route, mask u
 		w.conflictKeys = map[string]bool{}
 		w.rescanLost = map[string]bool{}
 		w.felixDeleted = map[string]delRec{}
+		w.flushed = map[string]delRec{}
 		w.r.Probe("full_listing_ok")
 	}
 	if !full && filter != nil {
@@ -648,6 +650,7 @@ func (n *nlWrap) routeReplace(rt *netlink.Route) error {
 	err := n.Interface.RouteReplace(rt)
 	if err == nil {
 		delete(w.felixDeleted, key)
+		delete(w.flushed, key)
 	}
 	return err
 }
@@ -723,6 +726,7 @@ func (w *world) flushLink(idx int) {
 		if rt.LinkIndex == idx {
 			if w.owned(&rt) {
 				w.conflictKeys[k] = true
+				w.flushed[k] = delRec{canon(&rt), rt.LinkIndex}
 			}
 			delete(w.dp.RouteKeyToRoute, k)
 			w.r.Logf("  kernel flushed %s", canon(&rt))
@@ -1217,6 +1221,15 @@ func (w *world) classify(base, k string, acceptable []string) string {
 			}
 		}
 	}
+	if d, ok := w.flushed[k]; ok && base == "desired_route_missing" {
+		for _, a := range acceptable {
+			if a == d.canon {
+				// the kernel flushed this route with its link, Felix was told about
+				// the flap, and the very same route is wanted (again)
+				return "flushed_route_still_tracked"
+			}
+		}
+	}
 	if len(w.rescanLost) == 0 {
 		return base
 	}
@@ -1318,7 +1331,7 @@ func run(r *core.R) {
 		"full_listing_ok", "iface_listing_ok", "iface_listing_failed", "kernel_change_during_apply", "start_state_stale_owned_routes",
 		"start_state_foreign_routes", "sut_used_closed_netlink_handle", "converged_after_1", "converged_after_2", "converged_after_3", "conntrack_cleanup_called", "ipv6_run")
 
-	w := &world{r: r, desired: map[int]map[string]map[string]routetable.Target{}, conflictKeys: map[string]bool{}, rescanLost: map[string]bool{}, felixDeleted: map[string]delRec{}, staleKeys: map[string]bool{}, staleIfaces: map[string]bool{},
+	w := &world{r: r, desired: map[int]map[string]map[string]routetable.Target{}, conflictKeys: map[string]bool{}, rescanLost: map[string]bool{}, felixDeleted: map[string]delRec{}, flushed: map[string]delRec{}, staleKeys: map[string]bool{}, staleIfaces: map[string]bool{},
 		replaceStuck: map[string]bool{}, seenBy: map[int]time.Time{}, downSince: map[string]bool{}, rate: map[string]int{}, staleAll: true, nextIdx: 2}
 
 	// ---- swarm configuration
